@@ -63,6 +63,7 @@ pub enum Prop {
     C01,
     C02,
     C03,
+    C04,
     C05,
     C06,
     C08,
@@ -340,7 +341,7 @@ pub fn run_case(c: &Case, prop: Prop) -> CaseResult {
 fn run_once(c: &Case, prop: Prop) -> Result<Obs, (Fail, bool)> {
     let nl = c.listeners.len().clamp(1, 2);
     let workers = c.workers.clamp(1, 3);
-    let limit = c.limit.clamp(1, 4);
+    let limit = if c.limit >= 12 { 12 } else { c.limit.clamp(1, 4) };
     let w = Arc::new(World { calls: Mutex::new(vec![]), gauge: Mutex::new(HashMap::new()), over_limit: Mutex::new(None), limit, panic_next: AtomicBool::new(false), factory_count: AtomicUsize::new(0), block_ms: AtomicUsize::new(0) });
     // listeners are bound here so that their fds are known (accept-error injection is keyed by fd)
     let mut addrs = vec![];
@@ -808,6 +809,21 @@ fn run_once(c: &Case, prop: Prop) -> Result<Obs, (Fail, bool)> {
         if let Some((id, n)) = seen.iter().find(|(_, n)| **n > 1) {
             r.found.push((Prop::C01, "C01/called-twice", format!("connection {} was served {} times", id, n), false));
         }
+        // C04 end-to-end: when every connection was settled before the next one was made (hand-over:
+        // call order == dispatch order) and no worker was ever saturated, any W consecutive
+        // connections are served by W distinct worker threads
+        let handed_over = c.ops.windows(2).all(|w| !matches!(w[0], Op::Connect { .. }) || matches!(w[1], Op::Settle)) && !matches!(c.ops.last(), Some(Op::Connect { .. }));
+        let unsaturated = limit >= 12 && !r.labels.contains(&"pause") && r.panics == 0;
+        if handed_over && unsaturated && workers >= 2 && calls.len() >= workers {
+            for win in calls.windows(workers) {
+                let distinct: std::collections::HashSet<ThreadId> = win.iter().map(|c| c.worker_thread).collect();
+                if distinct.len() != workers {
+                    r.found.push((Prop::C04, "C04/not-round-robin-e2e", format!("no worker was saturated, yet {} consecutive connections (ids {:?}) were served by only {} distinct workers", workers, win.iter().map(|c| c.conn).collect::<Vec<_>>(), distinct.len()), false));
+                    break;
+                }
+            }
+            r.label("round-robin-window-checked");
+        }
         let threads: std::collections::HashSet<ThreadId> = calls.iter().map(|c| c.worker_thread).collect();
         if threads.len() >= 2 {
             r.label("served-by>=2-workers");
@@ -857,6 +873,7 @@ fn run_once(c: &Case, prop: Prop) -> Result<Obs, (Fail, bool)> {
         Prop::C01 => r.labels.contains(&"served-by>=2-workers") || nl >= 2,
         Prop::C02 => r.labels.contains(&"saturated-with-waiting"),
         Prop::C03 => r.labels.contains(&"release-while-saturated"),
+        Prop::C04 => r.labels.contains(&"round-robin-window-checked"),
         Prop::C05 => r.labels.contains(&"pause") || r.labels.contains(&"inject"),
         Prop::C06 => stop_checked && r.labels.contains(&"stop-with-held-connections"),
         Prop::C08 => r.panics > 0,
@@ -868,6 +885,22 @@ pub mod gen {
     use proptest::prelude::*;
 
     use super::*;
+
+    /// C04: unsaturated workers, every connection settled before the next (hand-over)
+    pub fn c04_strategy() -> impl Strategy<Value = Case> {
+        (2usize..4, prop::collection::vec(prop::sample::select(vec![LKind::Tcp, LKind::Tcp, LKind::Uds]), 1..3), prop::collection::vec((any::<u16>(), prop::option::weighted(0.3, any::<u16>())), 3..11))
+            .prop_map(|(workers, listeners, steps)| {
+                let mut ops = vec![];
+                for (l, rel) in steps {
+                    ops.push(Op::Connect { l });
+                    ops.push(Op::Settle);
+                    if let Some(k) = rel {
+                        ops.push(Op::Release { k });
+                    }
+                }
+                Case { workers, limit: 12, listeners, shutdown_timeout_s: 1, ops }
+            })
+    }
 
     fn sel() -> impl Strategy<Value = u16> {
         any::<u16>()
